@@ -48,6 +48,9 @@ NEEDED = {
     "S-C12-5": "C12 state-query poller extended to client.fileno() and the socket proxy (client.socket.*); half of the runs keep the sender blocked for 1.3 s",
     "S-C13-5": "C13 'receive vs cancel in the same loop iteration' scenario (driver and order monitor shared with C10) with the new monitor event completed-despite-cancel",
     "S-C14-5": "C14 known-finding keys made shape-specific: the coarse key left-open:server-client-behind-sender:cancel-in-send_lock_wait had masked this seed (different outcome: cancelled instead of BusyResourceError)",
+    "S-C18-5": "C18 rule g (a request sent while a serve_forever is up and no stop request is in progress is answered) and templates serve/echo/shutdown x2, x3",
+    "S-C19-5": "none: same change as S-C14-1 (TLS wrap() no longer closes the transport on cancellation), needs the ssl= option; C14 catches it (path tls-wrap), C19's client level is plain TCP",
+    "S-C20-5": "C20 datagram scenario on the server-side send path too (DatagramListenerSocketAdapter.send_to)",
     "S-C16-2": "C16 datagrams arriving before serve() and a stop + restart of serve() on the same listener",
     "S-C19-2": "C19 client level: AsyncTCPNetworkClient closed / its waiter cancelled at every step of the race",
     "S-C04-2": "C04 interrupted send then resume (C20 caught it before)",
